@@ -228,7 +228,7 @@ def gen_pcm_case(rng):
         prices[nan_asset] = None
     return dict(kind='pcm', long_only=lo, param=(big if big is not None else (rng.choice([0.0, 0.05, 0.3]) if lo else rng.choice([0.5, 1.0, 2.0]))),
                 fee=gen_fee(rng), prices=prices, fills=fills, universe=uni, alpha=alpha, t=MON_OPEN + rng.choice([0, 60, 3600]),
-                entry_tz=(rng.choice(ZONES) if rng.random() < 0.3 else None), nat=rng.random() < 0.4)
+                entry_tz=(rng.choice(ZONES) if rng.random() < 0.3 else None), nat=rng.random() < 0.4, other_pf=rng.random() < 0.25)
 
 
 def gen_dyn_case(rng):
@@ -293,6 +293,10 @@ def run_pcm(case):
     b = SimulatedBroker(ts(MON_OPEN), SimulatedExchange(None), dh, initial_funds=1e7, fee_model=make_fee(case['fee']))
     b.create_portfolio('1')
     b.subscribe_funds_to_portfolio('1', 1e6)
+    if case.get('other_pf'):
+        # the broker serves further portfolios, created later than the one being rebalanced
+        b.create_portfolio('2')
+        b.subscribe_funds_to_portfolio('2', 5e5)
     for a, q in case['fills']:
         b.submit_order('1', Order(ts(MON_OPEN), a, q))
     b.update(ts(MON_OPEN))
